@@ -432,9 +432,20 @@ func (p *Parser) atStopWord(r rune) bool {
 	if !ok {
 		return false
 	}
-	for len(p.bs)-int(p.bsp) < len(rest) && p.fill() > 0 {
+	for {
+		var avail []byte
+		if int(p.bsp) < len(p.bs) {
+			avail = p.bs[p.bsp:]
+		}
+		if len(avail) >= len(rest) {
+			return bytes.HasPrefix(avail, rest)
+		}
+		// Only read more if the bytes we have may still lead to a match;
+		// an interactive parser must not wait for another line otherwise.
+		if !bytes.HasPrefix(rest, avail) || p.fill() == 0 {
+			return false
+		}
 	}
-	return int(p.bsp) <= len(p.bs) && bytes.HasPrefix(p.bs[p.bsp:], rest)
 }
 
 // extendedGlob determines whether we're parsing a Bash extended globbing expression.
